@@ -40,7 +40,7 @@ Ltac prune_dec := repeat match goal with
       [ try (exfalso; revert H; apply Rlt_not_le; interval) | try (exfalso; apply H; interval) ]
   end.
 Ltac pw_all := repeat first
-  [ rewrite pw_sq | rewrite pw_one
+  [ rewrite Rabs_R0 | rewrite pw_sq | rewrite pw_one
   | match goal with |- context[pw ?a ?b] => rewrite (pw_pos_eq a b) by interval end
   | match goal with |- context[pw 0 ?b] => rewrite (pw_0 b) by lra end ].
 Ltac model_side := unfold pipe_row, closed_row, power_pump_row, head_pump_row, head_pump_row_lo, head_pump_row_hi, q_bar, pump_poly,
